@@ -158,7 +158,7 @@ func (c03) Assumptions() []string {
 
 func c03Universes(tier string) int {
 	if tier == "thorough" {
-		return 1500
+		return 4000
 	}
 	return 60
 }
